@@ -406,13 +406,13 @@ def pairing(ctx, rule):
             continue
         fc, lc = leaves(ctx, clo[1])
         for lf in lc:
-            done = conn.atom_truth(lf, lambda t: is_call(t, CC + "is_done"))
+            done = conn.atom_truth(lf, lambda t: isinstance(t, tuple) and t[0] == "call" and t[1] == CC + "is_done")
             keep = look(lf.ret())
             # `!done` / `!conn.is_done()` written out instead of two literal returns
             neg = False
             while keep[0] == "un" and keep[1] == "Not":
                 keep, neg = look(keep[2]), not neg
-            if is_call(keep, CC + "is_done") and done is not None:
+            if isinstance(keep, tuple) and keep[0] == "call" and keep[1] == CC + "is_done" and done is not None:
                 keep = ("const", done)
             if keep[0] == "const" and isinstance(keep[1], bool) and neg:
                 keep = ("const", not keep[1])
